@@ -144,6 +144,9 @@ func genTape(r *lib.Rng, npaths int) []uint32 {
 // budgets of the expensive rounds of one run (a silent path costs the round's 0.4 s context, a pause 3.3 s)
 var silentBudget, pauseBudget int
 
+// idleWork does a chunk of other generation work while a history pauses; false: nothing left
+var idleWork = func() bool { return false }
+
 func genPeer(r *lib.Rng, h *histIn, rd *roundIn) {
 	for range h.cfg {
 		rd.modes = append(rd.modes, genModes(r))
@@ -154,14 +157,23 @@ func genPeer(r *lib.Rng, h *histIn, rd *roundIn) {
 		silentBudget--
 		for n := 1 + r.Intn(2); n > 0; n-- {
 			i := r.Intn(len(h.cfg))
-			rd.modes[i] = lib.Pick(r, []int64{3, 0, 0}, []int64{3, 3, 3}, []int64{2, 3, 0}, []int64{1, 3, 0}, []int64{1, 2, 3}, []int64{0, 3, 0})
+			// (not after an accepted reply: a client that has measured and then waits on a silent path is cut off
+			// by the end of the context or not, whichever the scheduler picks - C15_ftm_cut covers every cut)
+			rd.modes[i] = lib.Pick(r, []int64{3, 0, 0}, []int64{3, 3, 3}, []int64{2, 3, 0}, []int64{2, 2, 3}, []int64{2, 3, 3})
 		}
 	}
-	if r.Intn(40) == 0 {
+	if !forceNTS && r.Intn(40) == 0 {
 		// the context is already cancelled: RandIntn gives up at the first rejected word (0 is rejected for every
 		// bound); with another first word the round may get past the sampling
 		rd.cancel = true
-		if r.Intn(6) != 0 {
+		for _, ms := range rd.modes {
+			for j := range ms {
+				if ms[j] == 3 {
+					ms[j] = 2 // without a deadline a client would wait for a silent path for ever
+				}
+			}
+		}
+		if r.Intn(10) != 0 {
 			rd.tape = append([]uint32{0}, rd.tape...)
 		}
 	}
@@ -358,15 +370,22 @@ func Main(race bool) {
 			if l[0] == "stat.uniform" {
 				replayStat(l[2])
 			}
+			if l[0] == "mp.collect" {
+				replayCollect(l[1], l[2])
+			}
 		}
 		return
 	}
 	r := lib.NewRng(a.Seed)
-	nIntn, nSample, nHist, nPather, nDup := 30000, 10000, 3000, 1500, 150
+	if os.Getenv("C15_ONLY") == "service" { // development aid
+		runService(r.Fork(), a.Tier == "thorough")
+		return
+	}
+	nIntn, nSample, nHist, nPather, nDup := 30000, 10000, 2400, 1200, 150
 	if a.Tier == "thorough" {
 		nIntn, nSample, nHist, nPather, nDup = 300000, 100000, 30000, 15000, 1500
 	}
-	silentBudget, pauseBudget = 20, 2
+	silentBudget, pauseBudget = 16, 2
 	if a.Tier == "thorough" {
 		silentBudget, pauseBudget = 300, 24
 	}
@@ -375,14 +394,32 @@ func Main(race bool) {
 		forceNTS = true
 		nIntn, nSample, nHist, nPather, nDup = 0, 0, raceHists(a.Tier), raceHists(a.Tier)/4, 0
 	}
-	genIntn(r.Fork(), nIntn)
-	genSample(r.Fork(), nSample)
-	hr := r.Fork()
-	for i := 0; i < nHist && deadlineHits < 2; i++ {
-		runHist("", genHist(hr))
+	// the single draws and samples are generated in chunks: first during the pauses of the pause histories
+	// (nothing else runs then), the rest afterwards
+	ir, sr := r.Fork(), r.Fork()
+	idleWork = func() bool {
+		switch {
+		case nIntn > 0:
+			n := min(nIntn, 400)
+			genIntn(ir, n)
+			nIntn -= n
+		case nSample > 0:
+			n := min(nSample, 200)
+			genSample(sr, n)
+			nSample -= n
+		default:
+			return false
+		}
+		return true
 	}
+	hr := r.Fork()
 	for i := 0; i < pauseBudget && deadlineHits < 2; i++ {
 		runHist("", genPauseHist(hr))
+	}
+	for idleWork() {
+	}
+	for i := 0; i < nHist && deadlineHits < 2; i++ {
+		runHist("", genHist(hr))
 	}
 	pr := r.Fork()
 	for i := 0; i < nPather && deadlineHits < 2; i++ {
@@ -393,7 +430,13 @@ func Main(race bool) {
 		runHist("", genPather(dr, true))
 	}
 	if !race {
+		nc := 2000
+		if a.Tier == "thorough" {
+			nc = 20000
+		}
+		genCollect(r.Fork(), nc)
 		genStat()
+		runService(r.Fork(), a.Tier == "thorough")
 	}
 	nd := 0
 	for e, n := range disturbed {
@@ -523,6 +566,7 @@ func checkCoverage() {
 // ---- stat.uniform: a statistical test on the real crypto/rand (not a proof) ----
 // args: what (0 = Sample, subsets in lexicographic order; 1 = RandIntn) k n N; outs: the count of every outcome
 func genStat() {
+	statSample(1, 6, 20000)
 	statSample(2, 5, 20000)
 	statSample(3, 7, 42000)
 	statIntn(6, 20000)
@@ -562,7 +606,7 @@ func statSample(k, n, total int) {
 			counts[i]++
 		}
 	}
-	w.Case("stat.uniform", "nt", lib.V(lib.I(0), lib.I(int64(k)), lib.I(int64(n)), lib.I(int64(total))), lib.L(lib.IL(counts)))
+	w.Case("stat.uniform", "nt", lib.V(lib.I(0), lib.I(int64(k)), lib.I(int64(n)), lib.I(int64(total))), lib.IL(counts))
 }
 
 func statIntn(n, total int) {
@@ -573,7 +617,7 @@ func statIntn(n, total int) {
 			counts[v]++
 		}
 	}
-	w.Case("stat.uniform", "nt", lib.V(lib.I(1), lib.I(0), lib.I(int64(n)), lib.I(int64(total))), lib.L(lib.IL(counts)))
+	w.Case("stat.uniform", "nt", lib.V(lib.I(1), lib.I(0), lib.I(int64(n)), lib.I(int64(total))), lib.IL(counts))
 }
 
 func replayStat(args string) {
